@@ -129,10 +129,10 @@ func runC08(c *an.Ctx) {
 			if _, isParam := fs.Store.Val.(*ssa.Parameter); !isParam {
 				return false, "Allow stores something other than its argument: " + an.Expr(fs.Store.Val)
 			}
-			if len(f) == 1 && f.HasSuffix(".RuleEngine", "==", on) {
+			if len(f) == 1 && txEngine(f, "==", on) {
 				return true, "stores its argument under exactly RuleEngine == On"
 			}
-			if !f.HasSuffix(".RuleEngine", "==", on) {
+			if !txEngine(f, "==", on) {
 				return false, "Allow takes effect without the guard RuleEngine == On (DetectionOnly must not enforce allow)"
 			}
 			return false, "Allow is additionally conditioned (" + shortFacts(f) + "): with the engine On some allow actions would not take effect"
